@@ -23,11 +23,30 @@ from typing import Any, Callable
 _TYPE_BUILTINS = {"list": list, "tuple": tuple, "int": int, "float": float, "bool": bool, "str": str, "dict": dict, "set": set, "frozenset": frozenset}
 
 
-_PURE_BUILTINS = {"dict": dict, "enumerate": lambda *a, **k: tuple(enumerate(*a, **k)), "range": lambda *a: tuple(range(*a)), "zip": lambda *a, **k: tuple(zip(*a, **k)), "sum": sum, "reversed": lambda x: tuple(reversed(x)), "str": str, "frozenset": frozenset}
-_PURE_METHODS = {"get", "items", "values", "keys", "index", "count", "copy"}
+def _it_pairwise(xs):
+    xs = list(xs)
+    return tuple(zip(xs, xs[1:]))
+
+
+def _it_accumulate(xs, func=None, initial=None):
+    import itertools
+
+    return tuple(itertools.accumulate(xs, func, initial=initial)) if func is not None or initial is not None else tuple(itertools.accumulate(xs))
+
+
+_PURE_BUILTINS = {"compress": lambda d, s_: tuple(x for x, k in zip(d, s_) if k), "pairwise": _it_pairwise, "accumulate": _it_accumulate, "chain": lambda *a: tuple(x for it_ in a for x in it_), "filter": lambda f, xs: tuple(x for x in xs if (f(x) if f is not None else x)), "map": lambda f, *xs: tuple(map(f, *xs)), "reduce": __import__("functools").reduce, "prod": __import__("math").prod, "ceil": __import__("math").ceil, "floor": __import__("math").floor, "dict": dict, "enumerate": lambda *a, **k: tuple(enumerate(*a, **k)), "range": lambda *a: tuple(range(*a)), "zip": lambda *a, **k: tuple(zip(*a, **k)), "sum": sum, "reversed": lambda x: tuple(reversed(x)), "str": str, "frozenset": frozenset}
+_PURE_METHODS = {"get", "items", "values", "keys", "index", "count", "copy", "append", "extend", "insert", "pop", "setdefault"}  # on concrete containers of the case (local to the simulation)
 
 
 class Unsupported(Exception):
+    pass
+
+
+class _Continue(Exception):
+    pass
+
+
+class _Break(Exception):
     pass
 
 
@@ -168,6 +187,14 @@ class Interp:
             return self.comprehension(e)
         if isinstance(e, ast.Lambda):
             return self.closure(e)
+        if isinstance(e, ast.NamedExpr):
+            v = self.ev(e.value)
+            self.assign(e.target, v)
+            return v
+        if isinstance(e, ast.Slice):
+            return slice(self.ev(e.lower) if e.lower is not None else None, self.ev(e.upper) if e.upper is not None else None, self.ev(e.step) if e.step is not None else None)
+        if isinstance(e, ast.Starred):
+            raise Unsupported("starred expression")
         raise Unsupported(f"expression {type(e).__name__}")
 
     def comprehension(self, e: ast.AST) -> Any:
@@ -246,6 +273,16 @@ class Interp:
             return _PURE_BUILTINS[f.id](*[self.ev(a) for a in e.args], **{k.arg: self.ev(k.value) for k in e.keywords})
         if isinstance(f, ast.Name) and callable(self.env.get(f.id)):  # a callable handed in by the case (e.g. a default rule)
             return self.env[f.id](*[self.ev(a) for a in e.args], **{k.arg: self.ev(k.value) for k in e.keywords})
+        if isinstance(f, ast.Attribute) and isinstance(f.value, ast.Name) and f.value.id in ("math", "itertools", "functools", "operator") and f.value.id not in self.env:
+            import functools as _ft
+            import itertools as _itools
+            import math as _math
+            import operator as _op
+
+            modv = {"math": _math, "itertools": _itools, "functools": _ft, "operator": _op}[f.value.id]
+            fn = _PURE_BUILTINS.get(f.attr) or getattr(modv, f.attr, None)
+            if fn is not None:
+                return fn(*[self.ev(a) for a in e.args], **{k.arg: self.ev(k.value) for k in e.keywords})
         if isinstance(f, ast.Attribute) and f.attr in _PURE_METHODS:
             base = self.ev(f.value)
             if isinstance(base, (dict, list, tuple, set, frozenset, str)):
@@ -292,6 +329,9 @@ class Interp:
                     r = self.call_hook(self, v)
                     if r is not _MISSING:
                         return
+                if isinstance(v.func, ast.Attribute) and v.func.attr in _PURE_METHODS:
+                    self.call(v)  # e.g. `xs.append(y)` on a concrete list of the case
+                    return
             raise Unsupported(f"expression statement {ast.unparse(st)[:60]}")
         elif isinstance(st, ast.AugAssign):
             fn = _BIN.get(type(st.op))
@@ -300,6 +340,31 @@ class Interp:
             self.assign(st.target, fn(self.ev(st.target), self.ev(st.value)))
         elif isinstance(st, ast.Pass):
             return
+        elif isinstance(st, ast.For) and not st.orelse:
+            for x in list(self.ev(st.iter)):
+                self.assign(st.target, x)
+                try:
+                    self.run(st.body, exc_resolver)
+                except _Continue:
+                    continue
+                except _Break:
+                    break
+        elif isinstance(st, ast.While) and not st.orelse:
+            n = 0
+            while self.ev(st.test):
+                n += 1
+                if n > 10000:
+                    raise Unsupported("loop bound")
+                try:
+                    self.run(st.body, exc_resolver)
+                except _Continue:
+                    continue
+                except _Break:
+                    break
+        elif isinstance(st, ast.Continue):
+            raise _Continue()
+        elif isinstance(st, ast.Break):
+            raise _Break()
         elif isinstance(st, ast.Return):
             raise Returned(self.ev(st.value) if st.value is not None else None)
         elif isinstance(st, ast.Assert):
